@@ -77,7 +77,7 @@ func hexHead(b []byte, n int) string {
 
 // hangLimit bounds a single library call sequence that normally takes micro- to milliseconds. A call that has not
 // returned after this long is reported as non-termination (the goroutine is abandoned).
-const hangLimit = 45 * time.Second
+const hangLimit = 20 * time.Second
 
 // guarded runs f and panics (rapid and the sweeps report a panic as a failure) when it does not return in time.
 func guarded(what string, f func()) {
